@@ -530,7 +530,7 @@ class CasJsonSerializer:
                 continue
 
             # Map back from offsets in Unicode codepoints to UIMA UTF-16 based offsets
-            if feature.domainType.name == TYPE_NAME_ANNOTATION and feature_name == "begin" or feature_name == "end":
+            if feature.domainType.name == TYPE_NAME_ANNOTATION and (feature_name == "begin" or feature_name == "end"):
                 sofa: Sofa = getattr(fs, "sofa")
                 value = sofa._offset_converter.python_to_external(value)
 
